@@ -11,7 +11,11 @@
   C08.BUF     the buffer is always a bounded deque, appended on the right only, re-created from its
               old content when resized.
   C08.EST     the input-period estimate is only computed once `now > sampling_start` is established
-              (sign discipline of the estimate that feeds C08.AGE).
+              (sign discipline of the estimate that feeds C08.AGE); it is reachable while the period is
+              unknown, is elapsed / received, its outcome is reported to the caller, and add_sample keeps
+              the two counters it is made of (one increment per stored sample, start = first timestamp).
+              C08.BUF also: resample() resizes the buffer exactly when the estimate changed, before
+              reading it.
 """
 from __future__ import annotations
 
@@ -331,6 +335,82 @@ def check_est(run: Run, prog: Program) -> None:
                   node=fn.node, file=fn.file, path=p.describe())
     if not n:
         raise AnalysisError(f"{fn.qual}: assignment of the input sampling period not found")
+    # ---- the estimate is reachable exactly when it is needed and possible, and its outcome is reported
+    all_paths = _paths(prog, fn)
+
+    def feasible(p: Path) -> bool:
+        # a deque never holds more than maxlen items: `len(buffer) <= maxlen` cannot be false
+        return p.outcome(("<=", f"len({BUF})", f"{BUF}.maxlen")) is not False and \
+            p.outcome(("<", f"{BUF}.maxlen", f"len({BUF})")) is not True
+
+    def writes_sp(p: Path) -> bool:
+        return any(e.kind == "write" and u(e.node.elts[0]) == SP for e in p.effects)  # type: ignore[attr-defined]
+
+    first = [p for p in all_paths if writes_sp(p) and feasible(p) and p.outcome(("is", frozenset({SP, "None"}))) is True]
+    run.check(bool(first), "C08.EST", fn.qual, "the input period is estimated while it is still unknown",
+              "no feasible path estimates the input period while it is unknown: the relevance window then "
+              "never takes an input period longer than the resampling period into account",
+              node=fn.node, file=fn.file)
+    for p in all_paths:
+        if p.exit != "return" or not feasible(p):
+            continue
+        w = writes_sp(p)
+        if w:
+            run.check(p.outcome(("is", frozenset({START, "None"}))) is False, "C08.EST", fn.qual,
+                      "estimate only once the first sample's timestamp is known",
+                      "the estimate is computed on a path where sampling_start can still be None",
+                      node=fn.node, file=fn.file, path=p.describe())
+        val = p.ret
+        ok = isinstance(val, ast.Constant) and val.value is (True if w else False)
+        run.check(ok, "C08.EST", fn.qual, "returns True exactly when the input period was just estimated",
+                  "the caller is not told (or wrongly told) that the input period changed: the buffer is not "
+                  "resized for the new relevance window (too short a buffer evicts samples that are still relevant)",
+                  node=fn.node, file=fn.file, path=p.describe(),
+                  instance=f"{fn.qual}: return value reports the estimate [{'estimated' if w else 'unchanged'}]")
+    # ---- add_sample keeps the two counters the estimate is made of
+    ad = prog.func(f"{HELPER}.add_sample")
+    te2 = TermEval()
+    for p in _paths(prog, ad):
+        rec = [e for e in p.effects if e.kind == "write" and u(e.node.elts[0]) == RECV]  # type: ignore[attr-defined]
+        ok = len(rec) == 1 and te2.ev(rec[0].node.elts[1]) == Poly.atom(RECV) + Poly.const(1)  # type: ignore[attr-defined]
+        run.check(ok, "C08.EST", ad.qual, "received_samples += 1 for every stored sample",
+                  "the number of received samples is not incremented by exactly one per stored sample: the "
+                  "input period estimate (elapsed / received) is wrong", node=ad.node, file=ad.file, path=p.describe())
+        st = [e for e in p.effects if e.kind == "write" and u(e.node.elts[0]) == START]  # type: ignore[attr-defined]
+        unknown = p.outcome(("is", frozenset({START, "None"})))
+        ok = (unknown is True and len(st) == 1 and u(st[0].node.elts[1]) == f"{ad.params[1]}.timestamp") \
+            or (unknown is False and not st)  # type: ignore[attr-defined]
+        run.check(ok, "C08.EST", ad.qual, "sampling_start = timestamp of the first stored sample, set once",
+                  "sampling_start is not exactly the timestamp of the first stored sample", node=ad.node,
+                  file=ad.file, path=p.describe(),
+                  instance=f"{ad.qual}: sampling_start set once [{'first sample' if unknown else 'later sample'}]")
+
+
+def check_resize(run: Run, prog: Program) -> None:
+    """When resample() learns that the input period changed it resizes the buffer before using it."""
+    fn = prog.func(f"{HELPER}.resample")
+    T = fn.params[1]
+    key = ("truthy", f"self._update_source_sample_period({T})")
+    seen = False
+    for p in _paths(prog, fn):
+        changed = p.outcome(key)
+        if changed is None:
+            upd = p.calls(lambda c: method_call(c, "self", "_update_source_sample_period"))
+            run.check(bool(upd), "C08.BUF", fn.qual, "resample() refreshes the input period estimate",
+                      "the input period estimate is not refreshed (or its outcome not looked at) on this path "
+                      "of a tick", node=fn.node, file=fn.file, path=p.describe())
+            continue
+        seen = True
+        resizes = p.calls(lambda c: method_call(c, "self", "_update_buffer_len"))
+        reads = [e for e in p.calls() if _ext(prog, fn.module, e.node) == "itertools.islice"]
+        before = bool(resizes) and bool(reads) and resizes[0].epoch < reads[0].epoch
+        ok = (changed and len(resizes) == 1 and before) or (not changed and not resizes)
+        run.check(ok, "C08.BUF", fn.qual, "input period changed -> buffer resized before it is read",
+                  "the buffer is not resized exactly when the input period estimate changed, before the "
+                  "relevant samples are read from it", node=fn.node, file=fn.file, path=p.describe(),
+                  instance=f"{fn.qual}: resize iff the estimate changed [{'changed' if changed else 'unchanged'}]")
+    if not seen:
+        raise AnalysisError(f"{fn.qual}: the outcome of _update_source_sample_period is not tested on any path")
 
 
 CONTROLS = [
@@ -347,6 +427,12 @@ CONTROLS = [
      "            conf.resampling_function(relevant_samples, conf, props)\n            if relevant_samples is not None\n            else None",
      "C08.NONE"),
     ("race guard weakened", MOD, "            or now <= props.sampling_start\n", "            or now == props.sampling_start\n", "C08.EST"),
+    ("estimate never taken while unknown", MOD, "            props.sampling_period is not None\n", "            props.sampling_period is None\n", "C08.EST"),
+    ("buffer-full test made a tautology", MOD, "            or len(self._buffer) < self._buffer.maxlen\n",
+     "            or len(self._buffer) <= self._buffer.maxlen\n", "C08.EST"),
+    ("sample not counted", MOD, "        self._source_properties.received_samples += 1\n", "", "C08.EST"),
+    ("buffer not resized after a new estimate", MOD, "            self._update_buffer_len()\n\n        conf = self._config",
+     "            pass\n\n        conf = self._config", "C08.BUF"),
 ]
 
 
@@ -354,6 +440,7 @@ def run_rules(run: Run, prog: Program) -> None:
     check_edge(run, prog)
     check_filter(run, prog)
     check_buf(run, prog)
+    check_resize(run, prog)
     check_est(run, prog)
 
 
